@@ -85,105 +85,60 @@ Definition off_okb (o : Z) : bool := (- SPD <=? o) && (o <=? SPD).
 Definition tz_boundedb (z : tz) : bool := off_okb (fst z) && forallb (fun p => off_okb (snd p)) (snd z).
 Definition wf_tzb (z : tz) : bool := tz_boundedb z && sorted_from alpha (snd z).
 
-(** no transition instant in (a, b] *)
-Definition no_trans_in (z : tz) (a b : Z) : bool :=
-  forallb (fun p => (fst p <=? a) || (b <? fst p)) (snd z).
+(** UTC second at which time.Date places local midnight of day [D], and the offset in force there *)
+Definition day_utc (z : tz) (D : Z) : Z := local_to_utc z (D * SPD).
+Definition day_off (z : tz) (D : Z) : Z := offset_at z (day_utc z D).
 
-(** the wall-clock second [L] is "regular" for [z]: every offset is within a day and no transition
-    happens within a day of it (so [L] exists exactly once on the local clock) *)
-Definition edge_okb (z : tz) (L : Z) : bool :=
-  tz_boundedb z && no_trans_in z (L - SPD) (L + SPD)
-  && (alpha <=? L - SPD) && (L + SPD <? omega).
+(** [cross_okb z L]: the wall-clock second [L] is shown exactly once by the local clock of [z], at
+    the instant U = local_to_utc z L that time.Date computes: U + offset(U) = L, every period that
+    ends before U stays below L and every period that starts after U stays at or above L.
+    (A DST change a few hours away from L does not disturb this; L inside a spring-forward gap or a
+    fall-back overlap does.) *)
+Definition period_ok (cur s e U L : Z) : bool :=
+  if e <=? U then e - 1 + cur <? L
+  else if U <? s then L <=? s + cur
+  else U + cur =? L.
+
+Fixpoint periods_ok (cur start : Z) (l : list (Z * Z)) (U L : Z) : bool :=
+  match l with
+  | [] => if U <? start then L <=? start + cur else U + cur =? L
+  | (w, o) :: r => period_ok cur start w U L && periods_ok o w r U L
+  end.
+
+Definition cross_okb (z : tz) (L : Z) : bool :=
+  let U := local_to_utc z L in
+  (alpha <=? U) && (U + offset_at z U =? L) && periods_ok (fst z) alpha (snd z) U L.
+
+(** the Prop it establishes *)
+Definition regular (z : tz) (L : Z) : Prop :=
+  let U := local_to_utc z L in
+  U + offset_at z U = L /\ forall u, (L <= u + offset_at z u <-> U <= u).
 
 (* ------------------------------------------------------------------------------------------ *)
 (** * Facts *)
 
-Lemma lookup_from_offset_bounded cur start l u :
-  off_okb cur = true -> forallb (fun p => off_okb (snd p)) l = true ->
-  off_okb (fst (fst (lookup_from cur start l u))) = true.
+Lemma periods_ok_spec l : forall cur start U L u,
+  periods_ok cur start l U L = true -> (start <= u \/ start <= U) ->
+  (L <= u + fst (fst (lookup_from cur start l u)) <-> U <= u).
 Proof.
-  revert cur start. induction l as [| [w o] r IH]; intros cur start Hc Hl; cbn [lookup_from].
-  - exact Hc.
-  - cbn [forallb snd] in Hl. apply andb_true_iff in Hl as [Ho Hr].
-    destruct (u <? w); [ exact Hc | apply IH; assumption ].
+  induction l as [| [w o] r IH]; intros cur start U L u Hp Hs; cbn [lookup_from periods_ok] in *.
+  - cbn [fst]. destruct (Z.ltb_spec U start).
+    + apply Z.leb_le in Hp. lia.
+    + apply Z.eqb_eq in Hp. lia.
+  - apply andb_true_iff in Hp as [Hp Hr]. destruct (Z.ltb_spec u w).
+    + cbn [fst]. unfold period_ok in Hp. destruct (Z.leb_spec w U).
+      * apply Z.ltb_lt in Hp. lia.
+      * destruct (Z.ltb_spec U start).
+        -- apply Z.leb_le in Hp. lia.
+        -- apply Z.eqb_eq in Hp. lia.
+    + apply IH; [ exact Hr | lia ].
 Qed.
 
-Lemma offset_at_bounded z u : tz_boundedb z = true -> - SPD <= offset_at z u <= SPD.
+Lemma cross_regular z L : cross_okb z L = true -> regular z L.
 Proof.
-  unfold tz_boundedb. intros H. apply andb_true_iff in H as [Hc Hl].
-  pose proof (lookup_from_offset_bounded (fst z) alpha (snd z) u Hc Hl) as B.
-  unfold off_okb in B. apply andb_true_iff in B as [B1 B2].
-  apply Z.leb_le in B1, B2. unfold offset_at, lookup. lia.
-Qed.
-
-(** with no transition in (a, b], every lookup in [a, b] gives the same period, which covers [a, b] *)
-Lemma lookup_from_stable cur start l a b u :
-  forallb (fun p => (fst p <=? a) || (b <? fst p)) l = true ->
-  start <= a -> b < omega -> a <= u <= b ->
-  lookup_from cur start l u = lookup_from cur start l a
-  /\ snd (fst (lookup_from cur start l a)) <= a /\ b < snd (lookup_from cur start l a).
-Proof.
-  revert cur start. induction l as [| [w o] r IH]; intros cur start Hl Hs Hb Hu; cbn [lookup_from].
-  - cbn [fst snd]. split; [ reflexivity | lia ].
-  - cbn [forallb fst] in Hl. apply andb_true_iff in Hl as [Hw Hr].
-    apply orb_true_iff in Hw. destruct Hw as [Hw | Hw].
-    + apply Z.leb_le in Hw.
-      destruct (Z.ltb_spec u w); [ lia | ]. destruct (Z.ltb_spec a w); [ lia | ].
-      apply IH; [ exact Hr | lia | lia | lia ].
-    + apply Z.ltb_lt in Hw.
-      destruct (Z.ltb_spec u w); [ | lia ]. destruct (Z.ltb_spec a w); [ | lia ].
-      cbn [fst snd]. split; [ reflexivity | lia ].
-Qed.
-
-Lemma offset_at_stable z a b u :
-  no_trans_in z a b = true -> alpha <= a -> b < omega -> a <= u <= b ->
-  offset_at z u = offset_at z a.
-Proof.
-  intros H Ha Hb Hu. unfold offset_at, lookup.
-  destruct (lookup_from_stable (fst z) alpha (snd z) a b u H Ha Hb Hu) as [E _]. rewrite E. reflexivity.
-Qed.
-
-Lemma edge_okb_spec z L : edge_okb z L = true ->
-  tz_boundedb z = true /\ no_trans_in z (L - SPD) (L + SPD) = true /\ alpha <= L - SPD /\ L + SPD < omega.
-Proof.
-  unfold edge_okb. rewrite !andb_true_iff, Z.leb_le, Z.ltb_lt. tauto.
-Qed.
-
-(** around a regular wall-clock second the offset is constant ... *)
-Lemma edge_offset z L u : edge_okb z L = true -> L - SPD <= u <= L + SPD ->
-  offset_at z u = offset_at z L.
-Proof.
-  intros H Hu. apply edge_okb_spec in H as (Hb & Hn & Ha & Ho).
-  unfold SPD in *.
-  rewrite (offset_at_stable z (L - 86400) (L + 86400) u Hn Ha Ho Hu).
-  rewrite (offset_at_stable z (L - 86400) (L + 86400) L Hn Ha Ho ltac:(lia)). reflexivity.
-Qed.
-
-(** ... and time.Date's offset search returns [L - offset] *)
-Lemma local_to_utc_edge z L : edge_okb z L = true -> local_to_utc z L = L - offset_at z L.
-Proof.
-  intros H. pose proof (edge_okb_spec z L H) as (Hb & Hn & Ha & Ho).
-  pose proof (offset_at_bounded z L Hb) as B.
-  unfold local_to_utc. unfold offset_at in B |- * at 2. unfold lookup in *.
-  destruct (lookup_from_stable (fst z) alpha (snd z) (L - SPD) (L + SPD) L Hn Ha Ho ltac:(unfold SPD; lia))
-    as (E & Hs & He).
-  rewrite <- E in Hs, He.
-  destruct (lookup_from (fst z) alpha (snd z) L) as [[o s] e] eqn:EL. cbn [fst snd] in *.
-  destruct (Z.eqb_spec o 0); [ lia | ].
-  destruct (Z.ltb_spec (L - o) s); [ lia | ].
-  destruct (Z.leb_spec e (L - o)); [ lia | ].
-  reflexivity.
-Qed.
-
-(** the local wall clock passes a regular second [L] exactly at UTC second [L - offset] *)
-Lemma local_cmp z L u : edge_okb z L = true ->
-  (L <= u + offset_at z u <-> L - offset_at z L <= u).
-Proof.
-  intros H. pose proof (edge_okb_spec z L H) as (Hb & _).
-  pose proof (offset_at_bounded z L Hb) as BL. pose proof (offset_at_bounded z u Hb) as Bu.
-  destruct (Z_lt_le_dec u (L - SPD)) as [C1 | C1]; [ lia | ].
-  destruct (Z_lt_le_dec (L + SPD) u) as [C2 | C2]; [ lia | ].
-  rewrite (edge_offset z L u H ltac:(lia)). lia.
+  unfold cross_okb, regular. cbn zeta. rewrite !andb_true_iff, Z.leb_le, Z.eqb_eq.
+  intros [[Ha He] Hp]. split; [ exact He | ].
+  intros u. unfold offset_at, lookup. apply periods_ok_spec; [ exact Hp | right; exact Ha ].
 Qed.
 
 (** fixed-offset zones *)
@@ -197,34 +152,19 @@ Proof.
   rewrite offset_at_fixed. destruct ((L - o <? alpha) || (omega <=? L - o)); reflexivity.
 Qed.
 
+Lemma fixed_regular o L : regular (tz_fixed o) L.
+Proof.
+  unfold regular. cbn zeta. rewrite local_to_utc_fixed. split.
+  - rewrite offset_at_fixed. lia.
+  - intros u. rewrite offset_at_fixed. lia.
+Qed.
+
 (** instants: seconds and nanoseconds *)
 Lemma sec_nsec t : t = sec_of t * NS + nsec_of t /\ 0 <= nsec_of t < NS.
 Proof. unfold sec_of, nsec_of, NS. Z.div_mod_to_equations. lia. Qed.
 
 Lemma sec_of_mul u n : 0 <= n < NS -> sec_of (u * NS + n) = u /\ nsec_of (u * NS + n) = n.
 Proof. unfold sec_of, nsec_of, NS. intros H. Z.div_mod_to_equations. lia. Qed.
-
-(** [regular z L]: the wall-clock second [L] exists exactly once in zone [z] and time.Date finds it.
-    Holds for every [L] of a fixed-offset zone and for every [L] with [edge_okb z L = true]. *)
-Definition regular (z : tz) (L : Z) : Prop :=
-  local_to_utc z L = L - offset_at z L
-  /\ offset_at z (L - offset_at z L) = offset_at z L
-  /\ forall u, (L <= u + offset_at z u <-> L - offset_at z L <= u).
-
-Lemma edge_regular z L : edge_okb z L = true -> regular z L.
-Proof.
-  intros H. split; [ apply local_to_utc_edge; exact H | split ].
-  - pose proof (edge_okb_spec z L H) as (Hb & _).
-    pose proof (offset_at_bounded z L Hb). apply edge_offset; [ exact H | lia ].
-  - intros u. apply local_cmp. exact H.
-Qed.
-
-Lemma fixed_regular o L : regular (tz_fixed o) L.
-Proof.
-  split; [ rewrite local_to_utc_fixed, offset_at_fixed; reflexivity | split ].
-  - rewrite !offset_at_fixed. reflexivity.
-  - intros u. rewrite !offset_at_fixed. lia.
-Qed.
 
 Lemma le_inst A t : A * NS <= t <-> A <= sec_of t.
 Proof. unfold sec_of, NS. split; intros H; Z.div_mod_to_equations; lia. Qed.
@@ -233,9 +173,11 @@ Lemma lt_inst A t : t < A * NS <-> sec_of t < A.
 Proof. pose proof (le_inst A t). lia. Qed.
 
 (** the master comparison: local day number of [t] against a regular local midnight [D * SPD] *)
-Lemma day_cmp z D t : regular z (D * SPD) ->
-  (D <= local_days z t <-> (D * SPD - offset_at z (D * SPD)) * NS <= t).
+Lemma day_cmp z D t : regular z (D * SPD) -> (D <= local_days z t <-> day_utc z D * NS <= t).
 Proof.
-  intros (_ & _ & R). rewrite le_inst, <- R. unfold local_days, local_secs, SPD.
+  intros (_ & R). unfold day_utc. rewrite le_inst, <- R. unfold local_days, local_secs, SPD.
   split; intros H; Z.div_mod_to_equations; lia.
 Qed.
+
+Lemma day_utc_off z D : regular z (D * SPD) -> day_utc z D = D * SPD - day_off z D.
+Proof. intros (E & _). unfold day_off, day_utc in *. lia. Qed.
